@@ -26,7 +26,11 @@ pub fn gen(seed: u64, tier: Tier, k: u64) -> Value {
         let case = gen_small(&mut rng, tier, Pkg::NoConcat, 2 + (k / 8 % 2) as usize, 4);
         return json!({"case": case.to_json(), "scn_seed": rng.next(), "mode": "loose"});
     }
-    let case = gen_small(&mut rng, tier, pkg, n_extra, 5);
+    let mut case = gen_small(&mut rng, tier, pkg, n_extra, 5);
+    // pack ids of the extra packs: dense, or spread out (a hole in the id space is an unknown pack, not a missing one)
+    if n_extra > 0 && k % 16 >= 10 {
+        case.id_gap = *rng.pick(&[1u16, 3, 300]);
+    }
     json!({"case": case.to_json(), "scn_seed": rng.next()})
 }
 
@@ -197,6 +201,7 @@ pub fn run(desc: &Value, ctx: &Ctx) -> CaseOut {
     let mut fp = Fp::new();
     fp.s(case.pkg.as_str()).u(case.extra.len() as u64).u(ju64(desc, "scn_seed"));
     out.fp = fp.hex();
+    observe_cont(&case, &mut out);
     let r = util::catch(|| {
         let origin = scratch.path("origin");
         std::fs::create_dir_all(&origin).unwrap();
